@@ -7,6 +7,15 @@ ids = [p['id'] for p in props]
 
 CHECKS = {
  # id: (level, technique, level text, level note, design_ref)
+ 'C14': ('exploration', 'online monitor with exact __int128 winding-number / shoelace oracle; exhaustive on small grids',
+         'every answer of contain/contain_all/contain_any/inside/all_inside/any_inside/area/signed_area/perimeter is compared with '
+         'exact integer predicates; complete for all vertex lists of length 0..4 on a 4x4 grid x 81 query points (thorough: +5-vertex '
+         'and 5x5), sampled beyond that',
+         'trusts the 60-line integer oracle (oracle_geom.cpp, no gdstk headers); coordinates restricted to exactly representable dyadic values', '7/C14'),
+ 'C19': ('exploration', 'online differential monitor against an independent number codec (both stream modes) under ASan+UBSan',
+         'encode/decode round trips, independent decoding of gdstk bytes and gdstk decoding of alternative legal encodings for GDSII '
+         'reals, OASIS integers, deltas, reals and point lists; systematic on all 7-bit and power-of-16 boundaries, sampled elsewhere',
+         'trusts oracle_oasnum.cpp (written from DESIGN.md appendix A/B) and long double / __int128 arithmetic', '7/C19'),
  'C20': ('exploration', 'online reference-model monitor (std::map/std::set/list models) under ASan+UBSan',
          'every return value of the real containers/property lists/sort routines is compared op-by-op with an executable '
          'abstract model over seeded collision-heavy histories; held on the histories explored, nothing more',
@@ -31,7 +40,7 @@ m = {
  },
  'engines': [
    {'name': 'gdsmon', 'path': 'driver/gdsmon.cpp', 'kind_free_text': 'fork-per-case operation server linked to sanitized gdstk; JSON-lines event log checked offline by py/oracle code', 'serves_properties': []},
-   {'name': 'online monitors', 'path': 'driver/mon_*.cpp', 'kind_free_text': 'in-process reference-model monitors', 'serves_properties': ['C20']},
+   {'name': 'online monitors', 'path': 'driver/mon_*.cpp', 'kind_free_text': 'in-process reference-model monitors', 'serves_properties': ['C14', 'C19', 'C20']},
  ],
  'checks': [],
  'not_applicable': [{'property_id': i, 'reason': r} for i, r in sorted(NOT_YET.items())],
